@@ -732,6 +732,20 @@ func c17ConcurrentDist(out *verifkit.Out, r *verifkit.Rand, n int) {
 			if err != nil {
 				return
 			}
+			// every other case goes through a Proxy whose distributor is replaced (log-list refresh) meanwhile
+			viaProxy := it%2 == 1
+			pctx, pcancel := context.WithCancel(context.Background())
+			defer pcancel()
+			var p *Proxy
+			ll := c17LogList(sc.logs)
+			if viaProxy {
+				p = NewProxy(NewLogListManager(nil, nil), func(l *loglist3.LogList) (*Distributor, error) {
+					return NewDistributor(l, sc.policyOf(), c17Builder(sc.logs, shared), nil)
+				}, nil)
+				if err := p.restartDistributor(pctx, ll); err != nil {
+					return
+				}
+			}
 			var wg sync.WaitGroup
 			for k := 0; k < callers; k++ {
 				wg.Add(1)
@@ -741,20 +755,31 @@ func c17ConcurrentDist(out *verifkit.Out, r *verifkit.Rand, n int) {
 					ctx, cancel := context.WithDeadline(context.Background(), start.Add(sc.deadline))
 					defer cancel()
 					time.Sleep(time.Duration(k) * 300 * time.Millisecond)
-					res.panicked = verifkit.Guard(func() { res.scts, res.err = d.AddChain(ctx, chain, false) })
+					res.panicked = verifkit.Guard(func() {
+						if viaProxy {
+							res.scts, res.err = p.AddChain(ctx, chain, false)
+						} else {
+							res.scts, res.err = d.AddChain(ctx, chain, false)
+						}
+					})
 					rs[k].res = res
 				}(k)
 			}
-			// root refreshes racing with the submissions
+			// root refreshes / distributor restarts racing with the submissions
 			wg.Add(1)
 			go func() {
 				defer wg.Done()
 				for i := 0; i < 4; i++ {
-					d.RefreshRoots(context.Background())
+					if viaProxy {
+						_ = p.restartDistributor(pctx, ll)
+					} else {
+						d.RefreshRoots(context.Background())
+					}
 					time.Sleep(250 * time.Millisecond)
 				}
 			}()
 			wg.Wait()
+			pcancel()
 			if dd := sc.deadline + time.Millisecond - time.Since(start); dd > 0 {
 				time.Sleep(dd)
 			}
@@ -773,7 +798,11 @@ func c17ConcurrentDist(out *verifkit.Out, r *verifkit.Rand, n int) {
 				}
 			}
 		}
-		out.Count("mode:dist-concurrent-callers-with-root-refresh")
+		if it%2 == 1 {
+			out.Count("mode:proxy-concurrent-callers-with-distributor-restart")
+		} else {
+			out.Count("mode:dist-concurrent-callers-with-root-refresh")
+		}
 	}
 }
 
